@@ -20,6 +20,7 @@ class Tracer:
         self.point_index = None  # optional map str(point) -> int for datetime workflows
         self.schd = None
         self.extra = {}
+        self.parents = []
     def emit(self, e, **a):
         if not self.enabled:
             return
@@ -106,7 +107,7 @@ def sync_proj(schd):
     queues = {}
     tqm = pool.task_queue_mgr
     for qn, q in tqm.queues.items():
-        queues[qn] = [tid(t) for t in q.deque]
+        queues[qn] = [tid(t) for t in reversed(q.deque)]
     return {
         "pool": pool_proj(pool), "cached": cached, "buckets": buckets, "empty_buckets": empty_buckets, "dup": dup,
         "rhlimit": TR.pt(pool.runahead_limit_point) if pool.runahead_limit_point is not None else None,
@@ -144,10 +145,10 @@ def _section(name):
 
 def _wrap(cls, name, maker):
     orig = getattr(cls, name)
-    if getattr(orig, "_verif_wrapped", False):
+    if getattr(orig, "_verif_wrapped", None) == maker.__name__:
         return
     new = maker(orig)
-    new._verif_wrapped = True
+    new._verif_wrapped = maker.__name__
     new._verif_orig = orig
     setattr(cls, name, new)
 
@@ -190,9 +191,30 @@ def install():
             had = itask.point in self.active_tasks and itask.identity in self.active_tasks[itask.point]
             r = orig(self, itask)
             if not had:
-                TR.emit("spawn", t=proj(itask), rhlimit=_rh(self))
+                par = TR.parents[-1] if TR.parents else None
+                TR.emit("spawn", t=proj(itask), rhlimit=_rh(self), parent=par)
             return r
         return add_to_pool
+
+    def mk_soo(orig):
+        def spawn_on_output(self, itask, output, *a, **kw):
+            TR.parents.append({"id": tid(itask), "flows": sorted(itask.flow_nums), "out": out_name(output)})
+            try:
+                return orig(self, itask, output, *a, **kw)
+            finally:
+                TR.parents.pop()
+        return spawn_on_output
+    _wrap(TaskPool, "spawn_on_output", mk_soo)
+
+    def mk_merge(orig):
+        def merge_flows(self, itask, flow_nums):
+            before = sorted(itask.flow_nums)
+            r = orig(self, itask, flow_nums)
+            TR.emit("merge", id=tid(itask), before=before, added=sorted(flow_nums), after=sorted(itask.flow_nums),
+                    parent=(TR.parents[-1] if TR.parents else None), inpool=_in_pool(itask))
+            return r
+        return merge_flows
+    _wrap(TaskPool, "merge_flows", mk_merge)
     _wrap(TaskPool, "add_to_pool", mk_add)
 
     def mk_remove(orig):
@@ -283,22 +305,22 @@ def install():
             return r
         return set_message_complete
 
-    # ---- queue release
+    # ---- queue release (what the queue manager itself releases)
+    from cylc.flow.task_queues.independent import IndepQueueManager
     def mk_qrel(orig):
-        def release_queued_tasks(self):
-            active_before = self.count_active_tasks() if hasattr(self, "count_active_tasks") else None
-            qb = {qn: [tid(t) for t in q.deque] for qn, q in self.task_queue_mgr.queues.items()}
-            limits = {qn: q.limit for qn, q in self.task_queue_mgr.queues.items()}
-            members = {qn: sorted(q.members) for qn, q in self.task_queue_mgr.queues.items()}
-            held = sorted([tid(t) for q in self.task_queue_mgr.queues.values() for t in q.deque if t.state.is_held],
+        def release_tasks(self, active):
+            qb = {qn: [tid(t) for t in reversed(q.deque)] for qn, q in self.queues.items()}
+            limits = {qn: q.limit for qn, q in self.queues.items()}
+            members = {qn: sorted(q.members) for qn, q in self.queues.items()}
+            held = sorted([tid(t) for q in self.queues.values() for t in q.deque if t.state.is_held],
                           key=lambda x: (x[1], x[0]))
-            active = _active_by_name(self)
-            r = orig(self)
+            act = {k: v for k, v in dict(active).items() if v}
+            r = orig(self, active)
             TR.emit("q_release", released=[tid(t) for t in r], queues_before=qb, limits=limits, members=members,
-                    held=held, active=active)
+                    held=held, active=act)
             return r
-        return release_queued_tasks
-    _wrap(TaskPool, "release_queued_tasks", mk_qrel)
+        return release_tasks
+    _wrap(IndepQueueManager, "release_tasks", mk_qrel)
 
     def mk_queue(orig):
         def queue_task(self, itask):
